@@ -16,6 +16,16 @@ def install(verbose=False):
     import io, contextlib
     import npstructures, npstructures.util
     import bionumpy  # noqa
+    import importlib, pkgutil
+    # load every submodule first, so that modules imported lazily by the library are rebound too
+    for pkg in (bionumpy, npstructures):
+        for m in pkgutil.walk_packages(pkg.__path__, pkg.__name__ + "."):
+            if any(part in m.name for part in (".tests", ".cli", "plotting", ".scripts", "benchmark", "cupy", "testing")):
+                continue
+            try:
+                importlib.import_module(m.name)
+            except Exception:
+                pass
     with contextlib.redirect_stdout(io.StringIO()):
         npstructures.util.np.set_backend(symnp)
     n = 0
